@@ -303,9 +303,38 @@ def check_send(chk, cfg, m, fn):
         pathid = "%s path %s" % (tag, "->".join(b.lstrip("%") for b in p.blocks))
         ors = [e for e in _events_on(p, fn, m, "full_flags", ("rmw",))]
         ok = len(ors) == 1 and ors[0].extra == "or" and _one_bit_mask(ors[0].val) is not None
+        note = ""
+        if not ok and len(ors) == 1 and ors[0].extra == "or":
+            # the operand is 1 << slot combined with something else (a mask of the bits that exist, ...): evaluated for every depth
+            # 1..32 and every slot below it, under the path's conditions, it must be exactly that one bit
+            val = ors[0].val
+            idx = [x[4] for x in paths.subexprs(val) if x[0] == "b" and x[1] == "shl" and x[3][0] == "c" and x[3][2] == 1]
+            qls = set(x for e_ in [val] + [c_ for c_, t_, i_ in p.conds] for x in paths.subexprs(e_)
+                      if x[0] == "ld" and _mq_field(x[1], fn, m) == "queue_len")
+            if len(set(idx)) == 1:
+                bad = None
+                feasible = 0
+                for L in range(1, 33):
+                    for k in range(L):
+                        env = {idx[0]: k}
+                        for x in qls:
+                            env[x] = L
+                        try:
+                            if not all(paths.cond_holds(cd, env) for cd in p.conds):
+                                continue
+                            feasible += 1
+                            got = eval_concrete(val, env) & 0xffffffff
+                        except NoValue as nv:
+                            got = "undefined (%s)" % fmt(nv.args[0])[:50]
+                        if got != (1 << k) and bad is None:
+                            bad = "with depth %d the flag of slot %d is published as %s" % (L, k, got if isinstance(got, str) else hex(got))
+                if feasible == 0:
+                    continue
+                ok = bad is None
+                note = "; evaluated for depths 1..32: " + ("always exactly bit `slot`" if ok else bad)
         chk.ob("R5.send", pathid, ok,
-               "send publishes with exactly one atomic OR of a one-bit mask (found %d RMW: %s)" %
-               (len(ors), ", ".join("%s %s" % (e.extra, fmt(e.val)[:60]) for e in ors)),
+               "send publishes with exactly one atomic OR of a one-bit mask (found %d RMW: %s)%s" %
+               (len(ors), ", ".join("%s %s" % (e.extra, fmt(e.val)[:60]) for e in ors), note),
                (ors[0].inst.loc if ors else p.ret_inst.loc), fn.name)
 
 
@@ -424,19 +453,33 @@ def check_observer(chk, cfg, m, fn):
                 chk.unknown("R5.empty-observer", tag, "decision not evaluable", p.ret_inst.loc)
             continue
         try:
-            rp = None
-            for x in paths.subexprs(r):
-                if x[0] == "ld" and _mq_field(x[1], fn, m) == "receivep":
-                    rp = x
+            rps = set(x for x in paths.subexprs(r) if x[0] == "ld" and _mq_field(x[1], fn, m) == "receivep")
+            for c_, t_, i_ in p.conds:
+                rps |= set(x for x in paths.subexprs(c_) if x[0] == "ld" and _mq_field(x[1], fn, m) == "receivep")
+            qls = set(x for e_ in [r] + [c_ for c_, t_, i_ in p.conds] for x in paths.subexprs(e_)
+                      if x[0] == "ld" and _mq_field(x[1], fn, m) == "queue_len")
             good = True
-            for flagval in (0, 1 << 3, 0xffffffff ^ (1 << 3), 0xffffffff):
-                env = {lds[0].val: flagval}
-                if rp is not None:
-                    env[rp] = 3
-                val = eval_concrete(r, env)
-                if bool(val) != (not (flagval & (1 << 3))):
-                    good = False
-            ok = good and rp is not None
+            feasible = 0
+            # every depth 1..32, the receive cursor at both ends and in the middle, the flag word with nothing / only that bit /
+            # everything but that bit / everything set (flag bits exist only below the depth)
+            for L in range(1, 33):
+                full = (1 << L) - 1
+                for rpv in sorted({0, L // 2, L - 1}):
+                    for flagval in (0, 1 << rpv, full ^ (1 << rpv), full):
+                        env = {lds[0].val: flagval}
+                        for x in rps:
+                            env[x] = rpv
+                        for x in qls:
+                            env[x] = L
+                        if not all(paths.cond_holds(cd, env) for cd in p.conds):
+                            continue
+                        feasible += 1
+                        val = eval_concrete(r, env)
+                        if bool(val) != (not (flagval & (1 << rpv))):
+                            good = False
+            if not feasible:
+                continue
+            ok = good and bool(rps)
         except NoValue:
             chk.unknown("R5.empty-observer", tag, "result %s not evaluable" % fmt(r)[:100], p.ret_inst.loc)
             continue
